@@ -16,6 +16,9 @@ macro_rules! dispatch {
     ($id:expr, $f:ident, $($arg:expr),*) => {
         match $id {
             "C01" => $f::<props::c01::C01>($($arg),*),
+            "C02" => $f::<props::c02::C02>($($arg),*),
+            "C03" => $f::<props::c03::C03>($($arg),*),
+            "C15" => $f::<props::c15::C15>($($arg),*),
             other => {
                 eprintln!("unknown property {other}");
                 std::process::exit(2)
